@@ -22,6 +22,7 @@ PROP_MODULES = {
     "C05": ["contracts.c05", "contracts.c05b"],
     "C08": ["contracts.c08"],
     "C04": ["contracts.c04"],
+    "C11": ["contracts.c11"],
 }
 
 
